@@ -155,6 +155,14 @@ def gen_patchset(rng, ws, *, dup=None):
                for n, t in zip(names, tuples)]
     if rng.random() < 0.3:
         patches[0]["metadata"]["comment"] = "additional metadata is allowed"
+    if rng.random() < 0.2:
+        # a guard that does not hold (on the background itself or on what earlier operations produced): applying
+        # this patch must fail as a whole
+        pj = patches[rng.randrange(len(patches))]
+        guard = rng.choice([{"op": "test", "path": "/version", "value": "9.9.9"},
+                            {"op": "test", "path": "/channels/0/name", "value": "no such channel"},
+                            {"op": "test", "path": "/channels/0/samples/0/data/0", "value": -12345.0}])
+        pj["patch"].insert(rng.randrange(len(pj["patch"]) + 1), guard)
     if dup == "name" and npatch >= 2:
         i, j = rng.sample(range(npatch), 2)
         patches[j]["metadata"]["name"] = patches[i]["metadata"]["name"]
